@@ -193,6 +193,36 @@ def one_case(rep, cs, seed, i):
         body(0)
         if cur_id() != 0 or OPERATOR_REGISTRY.get() is not default_reg:
             rep.violation("context-not-restored", "after leaving all contexts the default context / registry is not active", {"case": desc, "events": events})
+        # operator METHODS of a context that is not the active one (no `with` block, or another context is active):
+        # the result belongs to the context the method was called on
+        mark_ = len(log)
+        k = rng.randrange(nctx)
+        cands_ = [j for j, (sc_, ops_) in enumerate(pool) if not ops_ and sc_.scope._set]
+        if cands_:
+            sc_ = pool[rng.choice(cands_)][0]
+            other = [j for j in range(nctx) if j != k]
+
+            def run_method():
+                cc_ = ctxs[k].compile(sc_)
+                res_ = ctxs[k].integrate(cc_)
+                if not ctxs[k].has_symbolic(res_):
+                    rep.violation("operator-method-wrong-context", "integrate called on a context that is not the active one did not register its result in that context",
+                                  {"case": desc, "context": k})
+                for j in other:
+                    if ctxs[j].has_symbolic(res_):
+                        rep.violation("operator-method-wrong-context", "integrate called on one context registered its result in another (active) context", {"case": desc, "context": k, "other": j})
+                if default_ctx.has_symbolic(res_):
+                    rep.violation("operator-method-wrong-context", "integrate called on a context registered its result in the default context", {"case": desc, "context": k})
+                want_ = ctxs[k].compile(ctxs[k].get_symbolic_circuit(res_)) if ctxs[k].has_symbolic(res_) else None
+                if want_ is not None and want_ is not res_:
+                    rep.violation("operator-method-not-memoised", "the circuit returned by the integrate method is not the compiled circuit of its symbolic result", {"case": desc})
+            if other and rng.random() < 0.5:
+                with ctxs[other[0]]:
+                    run_method()
+            else:
+                run_method()
+            rep.count("operator-method-outside-active-context")
+        del log[mark_:]
     except Exception as e:
         rep.violation("history-exception:" + type(e).__name__, "a valid call history raised",
                       {"case": desc, "events": events, "exception": repr(e)[:300], "traceback": traceback.format_exc()[-1500:]})
